@@ -28,23 +28,23 @@ Lemma ltb_nat_Z a b : (a <? b)%nat = (Z.of_nat a <? Z.of_nat b).
 Proof. destruct (Nat.ltb_spec a b); destruct (Z.ltb_spec (Z.of_nat a) (Z.of_nat b)); auto; lia. Qed.
 
 (* ---- positional stores: the three classes have the same three tests *)
-Lemma tieB_admit_put_P s :
-  StoreP.admit_put s = ReservableReqStore_admit_put (lensP s) /\
-  StoreP.admit_put s = ReservablePriorityReqStore_admit_put (lensP s) /\
-  StoreP.admit_put s = ReservablePriorityReqFilterStore_admit_put (lensP s).
+Lemma tieB_allow_put_P s :
+  StoreP.allow_put s = ReservableReqStore_allow_put (lensP s) /\
+  StoreP.allow_put s = ReservablePriorityReqStore_allow_put (lensP s) /\
+  StoreP.allow_put s = ReservablePriorityReqFilterStore_allow_put (lensP s).
 Proof.
-  unfold StoreP.admit_put, ReservableReqStore_admit_put, ReservablePriorityReqStore_admit_put,
-    ReservablePriorityReqFilterStore_admit_put, lensP, zl; simpl.
+  unfold StoreP.allow_put, ReservableReqStore_allow_put, ReservablePriorityReqStore_allow_put,
+    ReservablePriorityReqFilterStore_allow_put, lensP, zl; simpl.
   rewrite ltb_nat_Z, Nat2Z.inj_add. auto.
 Qed.
 
-Lemma tieB_admit_get_P s :
-  StoreP.admit_get s = ReservableReqStore_admit_get (lensP s) /\
-  StoreP.admit_get s = ReservablePriorityReqStore_admit_get (lensP s) /\
-  StoreP.admit_get s = ReservablePriorityReqFilterStore_admit_get (lensP s).
+Lemma tieB_allow_get_P s :
+  StoreP.allow_get s = ReservableReqStore_allow_get (lensP s) /\
+  StoreP.allow_get s = ReservablePriorityReqStore_allow_get (lensP s) /\
+  StoreP.allow_get s = ReservablePriorityReqFilterStore_allow_get (lensP s).
 Proof.
-  unfold StoreP.admit_get, ReservableReqStore_admit_get, ReservablePriorityReqStore_admit_get,
-    ReservablePriorityReqFilterStore_admit_get, lensP, zl; simpl.
+  unfold StoreP.allow_get, ReservableReqStore_allow_get, ReservablePriorityReqStore_allow_get,
+    ReservablePriorityReqFilterStore_allow_get, lensP, zl; simpl.
   rewrite ltb_nat_Z. auto.
 Qed.
 
@@ -58,19 +58,19 @@ Proof.
 Qed.
 
 (* ---- bound-item stores *)
-Lemma tieB_admit_put_B s :
+Lemma tieB_allow_put_B s :
   StoreB.is_belt (StoreB.s_kind s) = false ->
-  StoreB.admit_put s = BufferStore_admit_put (lensB s) /\ StoreB.admit_put s = FleetStore_admit_put (lensB s).
+  StoreB.allow_put s = BufferStore_allow_put (lensB s) /\ StoreB.allow_put s = FleetStore_allow_put (lensB s).
 Proof.
-  intros NB. rewrite StoreBProps.admit_put_nobelt by auto.
-  unfold StoreB.used, BufferStore_admit_put, FleetStore_admit_put, lensB, zl; simpl.
+  intros NB. rewrite StoreBProps.allow_put_nobelt by auto.
+  unfold StoreB.used, BufferStore_allow_put, FleetStore_allow_put, lensB, zl; simpl.
   rewrite ltb_nat_Z, !Nat2Z.inj_add. auto.
 Qed.
 
-Lemma tieB_admit_get_B s :
-  StoreB.admit_get s = BufferStore_admit_get (lensB s) /\ StoreB.admit_get s = FleetStore_admit_get (lensB s).
+Lemma tieB_allow_get_B s :
+  StoreB.allow_get s = BufferStore_allow_get (lensB s) /\ StoreB.allow_get s = FleetStore_allow_get (lensB s).
 Proof.
-  unfold StoreB.admit_get, BufferStore_admit_get, FleetStore_admit_get, lensB, zl; simpl.
+  unfold StoreB.allow_get, BufferStore_allow_get, FleetStore_allow_get, lensB, zl; simpl.
   rewrite ltb_nat_Z. auto.
 Qed.
 
@@ -98,9 +98,9 @@ Proof.
 Qed.
 
 Lemma can_get_is_avail s :
-  Buffer_can_get (lensB s) = StoreB.admit_get s /\ Fleet_can_get (lensB s) = StoreB.admit_get s.
+  Buffer_can_get (lensB s) = StoreB.allow_get s /\ Fleet_can_get (lensB s) = StoreB.allow_get s.
 Proof.
-  unfold Buffer_can_get, Fleet_can_get, StoreB.admit_get, lensB, zl; simpl.
+  unfold Buffer_can_get, Fleet_can_get, StoreB.allow_get, lensB, zl; simpl.
   set (g := length (StoreB.getres s)). set (r := length (StoreB.ready s)).
   destruct (Z.eqb_spec (Z.of_nat r) 0); destruct (Nat.ltb_spec g r); try (split; reflexivity); try lia;
     split; apply Z.gtb_lt || (apply not_true_is_false; intros G; apply Z.gtb_lt in G); lia.
@@ -116,16 +116,16 @@ Theorem can_put_iff_immediate_grant s p pr :
 Proof.
   intros NB HI (NP & _). destruct (can_put_is_room s HI) as (-> & ->).
   assert ((StoreB.used s <? StoreB.cap s)%nat = true <-> snd (StoreB.step s (StoreB.RPut p pr)) = [StoreB.next s]) as K.
-  { rewrite <- (StoreBProps.admit_put_nobelt s NB). simpl.
+  { rewrite <- (StoreBProps.allow_put_nobelt s NB). simpl.
     set (r := {| StoreB.r_tok := StoreB.next s; StoreB.r_pid := p; StoreB.r_prio := StoreB.eff_prio s pr |}).
     set (s1 := StoreB.set_next (StoreB.set_putq s (StoreB.ins r (StoreB.putq s))) (S (StoreB.next s))).
-    assert (StoreB.admit_put s1 = StoreB.admit_put s) as EA by reflexivity.
+    assert (StoreB.allow_put s1 = StoreB.allow_put s) as EA by reflexivity.
     assert (StoreB.putq s1 = StoreB.ins r (StoreB.putq s)) as EP by reflexivity.
     destruct (StoreB.trig_put s1) as [s2 ts] eqn:E. simpl.
     unfold StoreB.trig_put in E. rewrite EP, EA in E.
     destruct (StoreB.putq s) as [|x q] eqn:EQ.
-    - simpl in E. destruct (StoreB.admit_put s); inversion E; subst; simpl; split; congruence.
-    - assert (StoreB.admit_put s = false) as F by (apply NP; congruence).
+    - simpl in E. destruct (StoreB.allow_put s); inversion E; subst; simpl; split; congruence.
+    - assert (StoreB.allow_put s = false) as F by (apply NP; congruence).
       destruct (StoreB.ins r (x :: q)) as [|y q'] eqn:EI.
       { exfalso. eapply StoreBProps.ins_nonnil; eauto. }
       rewrite F in E. inversion E; subst. rewrite F. split; congruence. }
@@ -138,19 +138,19 @@ Theorem can_get_iff_immediate_grant s p pr :
   (Fleet_can_get (lensB s) = true <-> snd (StoreB.step s (StoreB.RGet p pr)) = [StoreB.next s]).
 Proof.
   intros HI (_ & NG). destruct (can_get_is_avail s) as (-> & ->).
-  assert (StoreB.admit_get s = true <-> snd (StoreB.step s (StoreB.RGet p pr)) = [StoreB.next s]) as K.
+  assert (StoreB.allow_get s = true <-> snd (StoreB.step s (StoreB.RGet p pr)) = [StoreB.next s]) as K.
   { simpl.
     set (r := {| StoreB.r_tok := StoreB.next s; StoreB.r_pid := p; StoreB.r_prio := StoreB.eff_prio s pr |}).
     set (s1 := StoreB.set_next (StoreB.set_getq s (StoreB.ins r (StoreB.getq s))) (S (StoreB.next s))).
     assert (StoreBInv.Inv s1) as H1 by (apply StoreBInv.inv_set_next, StoreBInv.inv_set_getq, HI).
-    assert (StoreB.admit_get s1 = StoreB.admit_get s) as EA by reflexivity.
+    assert (StoreB.allow_get s1 = StoreB.allow_get s) as EA by reflexivity.
     destruct (StoreBInv.trig_get_inv s1 H1) as (s2 & ts & E & _). rewrite E. simpl.
     unfold StoreB.trig_get in E. simpl in E. fold r in E.
     destruct (StoreB.getq s) as [|x q] eqn:EQ.
-    - simpl in E. fold s1 in E. rewrite EA in E. destruct (StoreB.admit_get s) eqn:EG.
+    - simpl in E. fold s1 in E. rewrite EA in E. destruct (StoreB.allow_get s) eqn:EG.
       + destruct (StoreB.pick s1); [|discriminate]. inversion E; subst. simpl. split; auto.
       + inversion E; subst. split; congruence.
-    - assert (StoreB.admit_get s = false) as F by (apply NG; congruence).
+    - assert (StoreB.allow_get s = false) as F by (apply NG; congruence).
       destruct (StoreB.ins r (x :: q)) as [|y q'] eqn:EI.
       { exfalso. eapply StoreBProps.ins_nonnil; eauto. }
       fold s1 in E. rewrite EA, F in E. inversion E; subst. rewrite F. split; congruence. }
